@@ -281,8 +281,9 @@ def run(ctx):
                 "the nested structure, percent escapes, dap4.ce, byte-level mutation) x paths with known / unmodelled / no / unknown extension; a case is "
                 "non-trivial unless it is the valid empty query; distinct by (dataset, path, query)")
     ctx.assumptions = ["webob Request/Response plumbing is trusted; the body is read through Response.body",
-                       "inside the guarded region the model leaves Arrayterator's treatment of invalid hyperslabs and "
-                       "comparisons of unlike types unresolved (outcome `answered`): containment does not depend on them"]
+                       "inside the guarded region the model leaves comparisons of unlike types, operands that are not literals, paths "
+                       "through base variables and odd record ranges unresolved (outcome `answered`): containment does not depend "
+                       "on them; hyperslabs on arrays and grids are resolved (check_hyperslab)"]
     ctx.proof_phase()
     table_cases(ctx)
     explore(ctx, ctx.tier)
